@@ -108,6 +108,10 @@ def conv_keys(ops, outs):
             exp.append({"res": "Ok", "mac": "ideal", "rr": "ok"})
         elif k in ("present", "from_name", "from_str"):
             exp.append({"res": allowed(op, o, o["res"])})
+        elif k == "key_new":
+            e = {f: o[f] for f in ("res", "minlen", "slen", "native")}
+            e["res"] = allowed(op, o, o["res"])
+            exp.append(e)
         else:
             exp.append(o)
     return exp
@@ -484,7 +488,7 @@ def run(ctx):
     for i in range(n_traces):
         tr = os.path.join(ctx.work, "trace-%d.ndjson" % i)
         rc, out, err, _ = ctx.run_bin("record_tsig", [tr, str(ctx.seed * 100 + i),
-                                                       "3000" if thorough else "1200"])
+                                                       "3600" if thorough else "1500"])
         if rc != 0:
             raise vlib.ToolError("record_tsig failed: " + (out + err)[-800:])
         ok, used, rej = explain_trace(ctx, tr, "trace-%d" % i)
